@@ -1,18 +1,19 @@
 #!/bin/sh
 # Build the simulator offline for the feature sets the quick checks use (in parallel).
 cd "$(dirname "$0")"
+mkdir -p target
 export CARGO_NET_OFFLINE=true
 fail=0
 pids=""
 for spec in "default:" "gif+lb:get-info-full,large-blobs" "gif+tpp:get-info-full,third-party-payment" "lb+tpp:large-blobs,third-party-payment" "all:get-info-full,large-blobs,third-party-payment" "all+arb:get-info-full,large-blobs,third-party-payment,std,arbitrary" "arb:std,arbitrary"; do
   tag="${spec%%:*}"; feats="${spec#*:}"
   if [ -n "$feats" ]; then
-    CARGO_TARGET_DIR="target/$tag" cargo build -j 6 --release --offline --quiet --manifest-path sim/Cargo.toml --features "$feats" &
+    CARGO_TARGET_DIR="target/$tag" cargo build -j 6 --release --offline --quiet --manifest-path sim/Cargo.toml --features "$feats" >"target/setup-$tag.log" 2>&1 &
   else
-    CARGO_TARGET_DIR="target/$tag" cargo build -j 6 --release --offline --quiet --manifest-path sim/Cargo.toml &
+    CARGO_TARGET_DIR="target/$tag" cargo build -j 6 --release --offline --quiet --manifest-path sim/Cargo.toml >"target/setup-$tag.log" 2>&1 &
   fi
   pids="$pids $!"
 done
 for p in $pids; do wait "$p" || fail=1; done
-if [ $fail -ne 0 ]; then echo "setup failed"; exit 1; fi
+if [ $fail -ne 0 ]; then echo "setup failed"; grep -h -A12 "^error" target/setup-*.log | head -60; exit 1; fi
 echo "setup ok"
